@@ -1156,7 +1156,9 @@ class HTMLDocument:
     def _gen_html_tag_tree(
         self, lib_prefix: Optional[str], include_version: bool
     ) -> Tag:
-        content: TagList = self._content
+        # Expand tagifiable content first, so that the <html> / <body> / fragment case
+        # is chosen by what the content expands to.
+        content: TagList = self._content.tagify()
         html: Tag
         body: Tag
 
